@@ -13,14 +13,16 @@ NA == "na"
 
 (*************************** error objects *********************************)
 CodeTags == {"c_m32700", "c_m32600", "c_m32601", "c_m32602", "c_m32603", "c_m32000",
-             "c_m32050", "c_2001"}
+             "c_m32050", "c_2001", "c_2002"}
 IntLike  == IntTags \cup CodeTags            \* every tag whose representative is a JSON integer
 
 StdClass == [c_m32700 |-> "ParseError", c_m32600 |-> "InvalidRequestError",
              c_m32601 |-> "MethodNotFoundError", c_m32602 |-> "InvalidParamsError",
              c_m32603 |-> "InternalError", c_m32000 |-> "ServerError",
              c_2001 |-> "VerifCustomError", i0 |-> "VerifZeroError",       \* user classes registered for 2001 and for code 0
-             i1 |-> "VerifScopedChild"]                                    \* ... and (a subclass of a scoping base) for code 1
+             i1 |-> "VerifScopedChild",
+             c_2002 |-> "VerifLatestError"]     \* ... and for 2002: a first class registered only AFTER an error with that code had been deserialised,
+                                                \* then (the code deserialised again) a second class for the same code - the latest registration wins                                    \* ... and (a subclass of a scoping base) for code 1
 \* A base class may bring its own resolution (the documented recipe: override get_error_cls to look among the base's own
 \* subclasses only).  "VerifScopedBase" does; its subclass "VerifScopedChild" claims code 1 (inside that scope and, like
 \* every class that names a code, in the global registry).
